@@ -3,7 +3,7 @@
    specification (headers, versions, streams) in Proofs/XfrSpec.v. *)
 From DV Require Import Base.Prelude Model.XfrM Proofs.XfrSpec.
 From DV Require Proofs.XfrZone Proofs.XfrDiff.
-From DV Require Proofs.XfrSafety Proofs.XfrBasic Proofs.XfrIxfr Proofs.XfrAxfr Proofs.XfrFault Proofs.XfrOrder Proofs.XfrRefresh.
+From DV Require Proofs.XfrSafety Proofs.XfrBasic Proofs.XfrIxfr Proofs.XfrAxfr Proofs.XfrFault Proofs.XfrOrder Proofs.XfrRefresh Proofs.XfrGlue.
 From Coq Require Import Sorting.Permutation.
 
 (* Whatever is received (any messages, any records, any chunking, any fault), if the transfer ends
@@ -120,6 +120,14 @@ Theorem axfr_style_ixfr_converges_any_order : forall v z0 ser recs ws,
   exists z' n, inbound_xfr z0 tIXFR (Some ser) false ws = (Done z', n) /\ zeq z' (zone_of v).
 Proof. exact XfrOrder.axfr_style_ixfr_converges_any_order. Qed.
 Print Assumptions axfr_style_ixfr_converges_any_order.
+
+(* AXFR whose body also carries out-of-zone records ("glue that is not a subdomain of the origin",
+   any class / type except SOA / TTL / rdata), anywhere between the two SOAs: they are ignored *)
+Theorem axfr_converges_with_glue : forall v z0 ser recs ws,
+  version_wf v -> XfrGlue.axfr_response_glue v recs -> chunking tAXFR recs ws ->
+  exists z' n, inbound_xfr z0 tAXFR ser false ws = (Done z', n) /\ zeq z' (zone_of v).
+Proof. exact XfrGlue.axfr_converges_with_glue. Qed.
+Print Assumptions axfr_converges_with_glue.
 
 (* UDP IXFR: the same stream in one datagram *)
 Theorem udp_ixfr : forall v0 chain z0 w,
@@ -368,4 +376,18 @@ Example ex_dup_delete :
 Proof.
   cbv zeta. split; [vm_compute; discriminate|]. split; [|vm_compute; reflexivity].
   intros z1 H. vm_compute in H. inversion H; subst. vm_compute. reflexivity.
+Qed.
+
+Example ex_response_with_glue :
+  XfrGlue.axfr_response_glue ex_v2
+    [soa_rr ex_v2; mkRR (-1) 3 1 0 4294967295 7; mkRR 2 1 16 0 0 9; mkRR 0 1 2 0 3600 3; mkRR (-2) 1 28 0 5 1; mkRR 0 1 2 0 3600 2; soa_rr ex_v2].
+Proof.
+  exists [mkRR (-1) 3 1 0 4294967295 7; mkRR 2 1 16 0 0 9; mkRR 0 1 2 0 3600 3; mkRR (-2) 1 28 0 5 1; mkRR 0 1 2 0 3600 2].
+  split; [|split; [|reflexivity]].
+  - assert (P : forall r, In r [mkRR 2 1 16 0 0 9; mkRR 0 1 2 0 3600 3; mkRR 0 1 2 0 3600 2] -> XfrZone.plain r).
+    { intros r [<-|[<-|[<-|[]]]]; unfold XfrZone.plain, ttl_ok; cbn; repeat split; try discriminate; lia. }
+    constructor; [left; reflexivity|]. constructor; [right; apply P; cbn; auto|].
+    constructor; [right; apply P; cbn; auto|]. constructor; [left; reflexivity|].
+    constructor; [right; apply P; cbn; auto|constructor].
+  - intros r. cbn. intuition.
 Qed.
